@@ -116,7 +116,10 @@ def validate_file(path, mode, scratch):
     rnd = 0
     while todo:
         rnd += 1
-        cur = os.path.join(scratch, "%s.%s.v%d.ndjson" % (os.path.basename(path), mode, rnd))
+        # the name carries the whole path: files of the point and the scan catalogue have the
+        # same base names and are validated in parallel
+        cur = os.path.join(scratch, "%s_%s.%s.v%d.ndjson" % (hashlib.sha1(path.encode()).hexdigest()[:10],
+                                                             os.path.basename(path), mode, rnd))
         with open(cur, "w") as f:
             for e in todo:
                 f.writelines(e)
